@@ -1305,6 +1305,14 @@ class RoutingParameter:
         return group_names[0] if group_names else self.field
 
     @property
+    def disambiguated_field(self) -> str:
+        """The (possibly dotted) field as an attribute path on the generated request."""
+        return ".".join(
+            seg + "_" if seg in utils.RESERVED_NAMES else seg
+            for seg in self.field.split(".")
+        )
+
+    @property
     def sample_request(self) -> str:
         """return json dict for sample request matching the uri template."""
         sample = uri_sample.sample_from_path_template(self.field, self.path_template)
